@@ -214,6 +214,29 @@ def run_driver(scenario, seed, tier, out_path, cases=None, timeout=3600, crash_o
     return r.stdout.strip()
 
 
+def run_repo_tests(prop, work, out):
+    """cargo test of /repo's working tree with --cfg ndarray_interp_verif and NDINTERP_VERIF_TRACE set (build output
+    under /verif/build, nothing is written into /repo); the call log is converted by bin/rtv"""
+    raw = os.path.join(work, "repo-tests.raw")
+    if os.path.exists(raw):
+        os.remove(raw)
+    env = dict(os.environ, CARGO_NET_OFFLINE="true", NDINTERP_VERIF_TRACE=raw,
+               RUSTFLAGS="--cfg ndarray_interp_verif", CARGO_TARGET_DIR=os.path.join(BUILD, "repo-test-target"))
+    t0 = time.time()
+    r = subprocess.run(["cargo", "test", "--workspace", "--no-fail-fast", "--offline"], cwd="/repo", env=env,
+                       capture_output=True, text=True)
+    passed = sum(int(m) for m in re.findall(r"test result: \w+\. (\d+) passed", r.stdout))
+    failed = sum(int(m) for m in re.findall(r"test result: \w+\. \d+ passed; (\d+) failed", r.stdout))
+    if not os.path.exists(raw):
+        tool_error(f"the test suite of /repo wrote no call log (rc={r.returncode}): {(r.stdout + r.stderr)[-1500:]}")
+    c = subprocess.run([os.path.join(V, "bin", "rtv"), raw, out], capture_output=True, text=True)
+    if c.returncode != 0:
+        tool_error(f"bin/rtv failed: {c.stderr[-1500:]}")
+    info = json.loads(c.stdout.strip().splitlines()[-1])
+    info.update({"tests_passed": passed, "tests_failed": failed, "wall_s": round(time.time() - t0, 1)})
+    return info
+
+
 def split_trace(trace_path, max_chunks):
     """split at Reset boundaries into chunks of similar size; returns [(path, first_line_offset)]"""
     with open(trace_path) as f:
@@ -365,7 +388,7 @@ def main():
     if b[0] == "violation":
         violations.append(("C17|Send-Sync|harness-does-not-compile", b[1], "interpolator types are not Send + Sync"))
 
-    mc_stats, gen_stats, aux_stats = [], [], []
+    mc_stats, gen_stats, aux_stats, repo_test_info = [], [], [], []
     traces = []  # (label, path)
     samples = []
     cov_total = {}
@@ -445,6 +468,14 @@ def main():
                 log(f"[{prop}] driver {sc}: {msg}")
                 traces.append((sc + (f"-s{k}" if k else ""), out))
 
+            # the crate's OWN test suite, run with the call-log hooks on; its executions are validated like any trace
+            if P.get("repo_tests") and (tier == "thorough" or P["repo_tests"] == "always"):
+                out = os.path.join(work, "repo-tests.trace.ndjson")
+                info = run_repo_tests(prop, work, out)
+                log(f"[{prop}] repo test suite with call log: {info}")
+                repo_test_info.append(info)
+                traces.append(("repo-tests", out))
+
         known = [k for k in load_known() if k.get("property") == prop]
         from concurrent.futures import ThreadPoolExecutor
         with ThreadPoolExecutor(max_workers=max(1, len(traces))) as ex:
@@ -503,6 +534,7 @@ def main():
             "models": mc_stats,
             "generators": gen_stats,
             "auxiliary_obligations": aux_stats,
+            "repo_test_suite_traces": repo_test_info,
             "coverage_classes": relevant_cov,
             "largest_error_permille_of_tolerance": head_total,
             "exhaustive": False,
